@@ -114,8 +114,17 @@ fn status_row<T, E>(r: &Result<Result<T, E>, String>) -> Vec<u64> {
 /// Run a history on the real reader. `single` = compare single read calls (deterministic for
 /// no layer / encryption only); otherwise each read is "read until n bytes or end".
 pub fn run_history(bytes: &[u8], privs: &[StaticSecret], names: &[Vec<u8>], ops: &[Vec<u64>], single: bool) -> Vec<Vec<u64>> {
+    run_history_src(Cursor::new(bytes), bytes.len(), privs, names, ops, single)
+}
+
+/// The same over any source (C13: sources that return fewer bytes than asked).
+pub fn run_history_src<R: Read + std::io::Seek>(src: R, src_len: usize, privs: &[StaticSecret], names: &[Vec<u8>], ops: &[Vec<u64>], single: bool) -> Vec<Vec<u64>> {
     let mut rows: Vec<Vec<u64>> = Vec::new();
-    let opened = catch(|| open_reader(bytes, privs));
+    let opened = catch(|| {
+        let mut cfg = ArchiveReaderConfig::new();
+        cfg.add_private_keys(privs);
+        ArchiveReader::from_config(src, cfg).map_err(|e| format!("{e:?}"))
+    });
     let mut rd = match opened {
         Ok(Ok(r)) => r,
         Ok(Err(_)) => return vec![vec![1]],
@@ -157,6 +166,7 @@ pub fn run_history(bytes: &[u8], privs: &[StaticSecret], names: &[Vec<u8>], ops:
                     match rd.get_file(name_at(op[1])) {
                         Ok(Some(mut f)) => {
                             out.push(vec![7, f.size]);
+                            let limit_extra = f.size.min(1 << 26) as usize; // compressed archives are shorter than their files
                             let sizes: Vec<u64> = if op[0] == 2 { op[2..].to_vec() } else { vec![op[2]] };
                             let mut k = 0usize;
                             loop {
@@ -201,7 +211,7 @@ pub fn run_history(bytes: &[u8], privs: &[StaticSecret], names: &[Vec<u8>], ops:
                                     }
                                 }
                                 k += 1;
-                                if k > bytes.len() + 64 {
+                                if k > src_len + 64 + limit_extra {
                                     out.push(vec![9]);
                                     break;
                                 }
